@@ -31,10 +31,16 @@ def fls(xs):
 def gen_mesh_exact(rng, nd=None):
     nd = nd or rng.choice([1, 1, 2, 2, 3, 3, 3, 4])
     p1, p2, n = [], [], []
+    int_corners = rng.random() < 0.25      # corners handed over as Python ints (integer-typed pmin/pmax)
     for _ in range(nd):
         k = rng.randint(1, 6)
         cell = F(rng.choice([1, 3, 5, 7]), 2 ** rng.randint(0, 4))
         lo = F(rng.randint(-256, 256), 8)
+        if int_corners:
+            ext = rng.randint(1, 6)
+            k = ext * rng.choice([1, 2, 4])
+            cell = F(ext, k)
+            lo = F(rng.randint(-30, 30))
         hi = lo + k * cell
         if rng.random() < 0.5:
             lo, hi = hi, lo
@@ -42,7 +48,7 @@ def gen_mesh_exact(rng, nd=None):
         p2.append(hi)
         n.append(k)
     tf = F(1, 2 ** rng.choice([10, 20, 30]))
-    return dict(exact=True, p1=[S(x) for x in p1], p2=[S(x) for x in p2], n=n, tf=S(tf))
+    return dict(exact=True, p1=[S(x) for x in p1], p2=[S(x) for x in p2], n=n, tf=S(tf), int_corners=int_corners)
 
 
 def gen_mesh_scale(rng, nd=None):
@@ -249,7 +255,10 @@ def generate(rng, tier):
 
 # ------------------------------------------------------------------ implementation
 def build(m):
-    region = df.Region(p1=fls(m["p1"]), p2=fls(m["p2"]), tolerance_factor=fl(m["tf"]))
+    p1, p2 = fls(m["p1"]), fls(m["p2"])
+    if m.get("int_corners"):
+        p1, p2 = [int(x) for x in p1], [int(x) for x in p2]
+    region = df.Region(p1=p1, p2=p2, tolerance_factor=fl(m["tf"]))
     return df.Mesh(region=region, n=m["n"])
 
 
